@@ -26,6 +26,7 @@ BIND = {"int": {"a": I(3), "b": I(2)}, "negint": {"a": I(-7), "b": I(3)}, "real"
         "rvec-frac": {"a": L(R(1, 2), R(7, 4), R(-9, 4)), "b": L(R(5, 4), R(1, 4), R(3, 1))},
         "mat": {"a": L(L(I(1), I(2)), L(I(3), I(4))), "b": L(L(I(5), I(6)), L(I(7), I(8)))},
         "rmat": {"a": L(L(R(1, 2), R(3, 2)), L(R(5, 2), R(7, 2))), "b": L(L(R(1, 1), R(2, 1)), L(R(1, 2), R(1, 4)))},
+        "one": {"a": L(I(5)), "b": L(I(5))}, "one-scalar": {"a": L(R(5, 2)), "b": I(2)},
         "vec-scalar": {"a": L(I(3), I(1), I(2)), "b": I(2)}, "rvec-scalar": {"a": L(R(1, 2), R(7, 4), R(-9, 4)), "b": R(1, 2)}}
 TOL = 2e-5
 # operations the expression compiler handles: a program built only from these must be accepted by both backends
@@ -57,6 +58,15 @@ def programs(rnd, n_deep):
     out.append({"k": "dy", "op": "@", "a": a, "b": lit(L(I(1), I(0)))})
     for lam in ("dbl", "neg", "dec"):
         out.append({"k": "eachl", "lam": lam, "a": a})
+    # one-element lists made by take / drop / index (not by the expression compiler) under comparisons and arithmetic: the result
+    # is a one-element list, never an atom
+    ones = [{"k": "dy", "op": "#", "a": lit(I(1)), "b": a}, {"k": "dy", "op": "_", "a": lit(I(2)), "b": a}, {"k": "dy", "op": "@", "a": a, "b": lit(L(I(2)))}]
+    for o1 in ones:
+        for op in ("=", "<", ">", "+", "&"):
+            out.append({"k": "dy", "op": op, "a": o1, "b": b})
+            out.append({"k": "dy", "op": op, "a": o1, "b": lit(I(2))})
+            out.append({"k": "dy", "op": op, "a": lit(R(5, 2)), "b": o1})
+        out.append({"k": "dy", "op": "=", "a": o1, "b": o1})
     d1 = list(out)
     deep = []
     while len(deep) < n_deep:
